@@ -87,6 +87,27 @@ NOTES = {
  'C18d': ('missed', 'a self-referential input object nested four levels deep with fields after the self-reference, wrong kinds and missing required fields at nested levels'),
  'C19d': ('detected', ''),
  'C20d': ('detected', ''),
+ # fifth round: four earlier sites given
+ 'C01e': ('missed', 'a resolver that returns only an error and fails, in every execution mode, where the sequential reference has no result: Execute must fail too'),
+ 'C02e': ('missed', 'pass-through middlewares registered on the connection (1 and 3), each a scheduling point, with a mutation next to a subscription'),
+ 'C03e': ('detected', ''),
+ 'C04e': ('missed', 'Stop after the context the rerunner was created with has been cancelled, and two concurrent Stops'),
+ 'C05e': ('missed', 'a shard function returning values of two named integer types that print alike'),
+ 'C06e': ('missed', 'fragments whose type condition is the union\'s own name, judged against the single server\'s answer to the inlined query (the single server itself ignores such fragments: known finding)'),
+ 'C07e': ('missed', 'the column list cannot be fetched (driver.ErrBadConn) while change events arrive'),
+ 'C08e': ('detected', ''),
+ 'C09e': ('detected', ''),
+ 'C10e': ('missed', 'a column whose name equals the underscore-join of two other column names, with filters on both column sets in one batch'),
+ 'C11e': ('detected', ''),
+ 'C12e': ('detected', ''),
+ 'C13e': ('missed', 'a column type whose Valuer fails for some values, used as a filter value shipped through protobuf'),
+ 'C14e': ('missed', 'one response key selected twice in one selection set with a named or inline fragment in the first or second occurrence (objects and unions)'),
+ 'C15e': ('detected', ''),
+ 'C16e': ('missed', 'failing sort-field / filter-field resolvers (plain, Expensive, batch, fallback) of a paginated field and failing fields of the listed objects'),
+ 'C17e': ('detected', ''),
+ 'C18e': ('detected', ''),
+ 'C19e': ('missed (and the gateway part of the check turned out to stop after ~11% of its cases: virtual-clock cap inside one long run, not reported)', 'templates with fragments on the union\'s own name (inline, spread twice) through the gateway; the clock/step caps of the long enumerating runs were raised and a cap is now reported'),
+ 'C20e': ('missed', 'a limiter of size 0: a live-context Acquire never gets through, cancelled ones return without a token'),
 }
 rows = []
 for name in sorted(os.listdir(ROOT)):
